@@ -197,6 +197,7 @@ func runC13(c *Ctx) {
 	c.rule(P, "write-record", "WriteRecord: last-fragment bit exactly on the exhausting fragment and for empty data", 2)
 	runFullReadAs(c, P)
 	runNoWrapAs(c, P)
+	runAllFragmentsAs(c, P)
 	runAllocRule(c, P, nil)
 
 	// byteReader.readString bound (no make, slices the body)
@@ -519,6 +520,7 @@ func runC15(c *Ctx) {
 	c.Only = savedOnly
 	runFullReadAs(c, P)
 	runNoWrapAs(c, P)
+	runAllFragmentsAs(c, P)
 
 	ent, err := p.entrySet()
 	if err != nil {
